@@ -170,6 +170,8 @@ pub struct SimCore {
     pub spurious_p: u32,
     /// how the cancellation value is represented inside the `Box<dyn Any>` (see `box_token`)
     pub token_repr: u8,
+    pub immediate_p: u8,
+    pub immediate_salt: u64,
 }
 
 /// The cancellation value crosses the seam as `Box<dyn Any>`; callers use whatever type they like, so the simulator
@@ -246,6 +248,18 @@ impl SimCore {
 
     pub fn yields(&self, k: Kind) -> bool {
         self.yield_mask & k.bit() != 0
+    }
+
+    /// Does this particular request suspend? A kind that yields may still answer some requests at once.
+    pub fn yields_req(&self, k: Kind, key: &ReqKey) -> bool {
+        if !self.yields(k) {
+            return false;
+        }
+        if self.immediate_p == 0 {
+            return true;
+        }
+        let h = crate::prng::mix(&[self.immediate_salt, k.bit() as u64, crate::prng::fnv(&format!("{key:?}"))]);
+        (h % 8) as u8 >= self.immediate_p
     }
 
     fn latency(&self, kind: Kind) -> u64 {
